@@ -1466,3 +1466,132 @@ def gen_reader_consts():
         out += lean_list(nm, [a & 0xFF for a in arr]) + "\n"
     out += "end XV.Gen.ReaderConsts\n"
     return out
+# ---- C15 (builder) ----
+# ------------------------------------------------------------------ C15: scanner field / assignment sets
+import json as _json, os as _os
+RESET_CALL_RE = re.compile(r"^(reset\w*|removeAll\w*|clear\w*|flush\w*)$")
+
+@translate.register("ScannerFields")
+def gen_scanner_fields():
+    """Data members of the scanner classes, where each is assigned (constructor / scanReset closure / setters / scanning
+    code) - from the clang AST - plus the hand-reviewed classification in tools/c15_fields.json, emitted as Lean data."""
+    import scanner_ast as sa
+    try:
+        d = sa.extract()
+    except sa.AstError as e:
+        raise TranslateError("ScannerFields: " + str(e))
+    rev_path = _os.path.join(_os.path.dirname(_os.path.abspath(__file__)), "c15_fields.json")
+    try:
+        rev = _json.load(open(rev_path))
+    except (OSError, ValueError) as e:
+        raise TranslateError("ScannerFields: cannot read c15_fields.json: %s" % e)
+    base = d["XMLScanner"]
+    names = sorted({f for c in d.values() for f in c["fields"]})
+    ident = {n: i for i, n in enumerate(names)}
+    def ids(xs, universe=None):
+        return sorted({ident[x] for x in xs if x in ident and (universe is None or x in universe)})
+    # the three entry points that start a scan must bump the sequence id before scanReset
+    bump = []
+    for cls in sa.DERIVED:
+        m = d[cls]["methods"].get("scanDocument")
+        if m is None:
+            raise TranslateError("ScannerFields: %s::scanDocument not found" % cls)
+        bump.append((cls + "::scanDocument", "fSequenceId" in m["assigned"] and "scanReset" in m["selfcalls"]))
+    for mn in ("scanFirst", "scanReset(token)"):
+        m = base["methods"].get(mn)
+        if m is None:
+            raise TranslateError("ScannerFields: XMLScanner::%s not found" % mn)
+        bump.append(("XMLScanner::" + mn, "fSequenceId" in m["assigned"]))
+    out = [HEADER.rstrip("\n"),
+           "-- from clang++-14 -ast-dump=json over src/xercesc/internal/{XML,IG,WF,DG,SG}XMLScanner.{hpp,cpp} and tools/c15_fields.json",
+           "namespace XV.Gen.ScannerFields", "",
+           "structure ClassInfo where",
+           "  name : String",
+           "  fields : List Nat                      -- data members, own and inherited from XMLScanner (ids index fieldNames)",
+           "  ctorInit : List Nat                    -- constructor initialiser lists, constructor bodies, commonInit()",
+           "  resetAssigned : List Nat               -- assigned in scanReset(const InputSource&) or a same-object method it calls",
+           "  resetCalled : List Nat                 -- re-initialised there through reset*/removeAll*/clear*/flush* member calls or element writes",
+           "  resetAssignedFromNonConfig : List Nat  -- subset of resetAssigned whose right-hand side reads object state (is not a constant)",
+           "  setterAssigned : List Nat              -- assigned by a public set*/cacheGrammarFromParse/useCachedGrammarInParse",
+           "  scanAssigned : List Nat                -- assigned by any other method (scanning code, loadGrammar, ...)",
+           "  configFields : List Nat                -- reviewed classification (tools/c15_fields.json), restricted to this class",
+           "  perParseFields : List Nat",
+           "  scratchFields : List Nat",
+           "  knownReinitialisedElsewhere : List Nat -- reviewed exceptions with reasons in the JSON file",
+           "  knownUnreset : List Nat                -- recorded defects",
+           "  knownConfigOverwrite : List Nat        -- recorded defects",
+           "", "def fieldNames : List String := [" + ", ".join('"%s"' % n for n in names) + "]", ""]
+    cls_names = []
+    for cls in sa.DERIVED:
+        c = d[cls]
+        fields = base["fields"] + c["fields"]
+        if len(set(fields)) != len(fields):
+            raise TranslateError("ScannerFields: %s redeclares an inherited member" % cls)
+        fset = set(fields)
+        def lookup(m):
+            return c["methods"].get(m) or base["methods"].get(m)
+        if "scanReset" not in c["methods"]:
+            raise TranslateError("ScannerFields: %s::scanReset(const InputSource&) not found" % cls)
+        seen, todo = set(), ["scanReset"]
+        A, C, NC = set(), set(), set()
+        calls = set()
+        while todo:
+            m = todo.pop()
+            if m in seen:
+                continue
+            seen.add(m)
+            f = lookup(m)
+            if not f:
+                continue
+            A |= set(f["assigned"])
+            C |= set(f["touched"])
+            for fld, meth in f["called"]:
+                if RESET_CALL_RE.match(meth):
+                    C.add(fld); calls.add("%s.%s" % (fld, meth))
+            for fld, reads in f["rhs"].items():
+                if reads:
+                    NC.add(fld)
+            todo += list(f["selfcalls"])
+        closure = seen
+        ctor, setter, scan = set(), set(), set()
+        for owner in (base, c):
+            for m, f in owner["methods"].items():
+                if m in ("<ctor>",) or m in sa.INIT_METHODS:
+                    ctor |= set(f["assigned"])
+                elif m in ("<dtor>",) or m in sa.TEARDOWN or m in closure:
+                    continue
+                elif sa.SETTER_RE.match(m) and m in owner["public_methods"]:
+                    setter |= set(f["assigned"])
+                else:
+                    scan |= set(f["assigned"])
+        else_ = dict(rev["elsewhere"].get("*", {})); else_.update(rev["elsewhere"].get(cls, {}))
+        lean = cls
+        cls_names.append(lean)
+        out.append("-- %s: scanReset closure = %s" % (cls, ", ".join(sorted(closure & (set(c["methods"]) | set(base["methods"]))))))
+        out.append("-- %s: reset calls = %s" % (cls, ", ".join(sorted(calls))))
+        def L(xs):
+            return "[" + ", ".join(str(i) for i in xs) + "]"
+        out.append("def %s : ClassInfo where" % lean)
+        out.append('  name := "%s"' % cls)
+        out.append("  fields := " + L(ids(fields)))
+        out.append("  ctorInit := " + L(ids(ctor, fset)))
+        out.append("  resetAssigned := " + L(ids(A, fset)))
+        out.append("  resetCalled := " + L(ids(C, fset)))
+        out.append("  resetAssignedFromNonConfig := " + L(ids(A & NC, fset)))
+        out.append("  setterAssigned := " + L(ids(setter, fset)))
+        out.append("  scanAssigned := " + L(ids(scan, fset)))
+        out.append("  configFields := " + L(ids(rev["config"], fset)))
+        out.append("  perParseFields := " + L(ids(rev["perParse"], fset)))
+        out.append("  scratchFields := " + L(ids(rev["scratch"], fset)))
+        out.append("  knownReinitialisedElsewhere := " + L(ids(else_, fset)))
+        out.append("  knownUnreset := " + L(ids(rev.get("knownUnreset", {}), fset)))
+        out.append("  knownConfigOverwrite := " + L(ids(rev.get("knownConfigOverwrite", {}).get(cls, {}), fset)))
+        out.append("")
+    out.append("def classes : List ClassInfo := [" + ", ".join(cls_names) + "]")
+    out.append("")
+    out.append("/-- scan entry points, and whether each increments fSequenceId (scanDocument: and then calls scanReset) -/")
+    out.append("def seqBumpedBy : List (String × Bool) := [" + ", ".join('("%s", %s)' % (n, "true" if b else "false") for n, b in bump) + "]")
+    out.append("def fieldId (n : String) : Nat := fieldNames.idxOf n")
+    out.append("")
+    out.append("end XV.Gen.ScannerFields")
+    return "\n".join(out) + "\n"
